@@ -8,6 +8,7 @@ mod vecs;
 mod concat;
 mod counter;
 mod traits;
+mod codec;
 
 #[global_allocator]
 static GLOBAL: alloc::Tracking = alloc::Tracking;
@@ -42,6 +43,7 @@ fn main() {
         "concat" => concat::run(&out, &tier, seed, &rest),
         "counter" => counter::run(&out, &tier, seed, &rest),
         "traits" => traits::run(&out, &tier, seed, &rest),
+        "codec" => codec::run(&out, &tier, seed, &rest),
         _ => { eprintln!("unknown driver {}", driver); std::process::exit(2); }
     }
 }
